@@ -86,6 +86,108 @@ theorem hop_path_is_segments (four : Bool) (h : AsPath.HopPath) (hw : AsPath.WfH
     exact ⟨ss, c4 hs, by simp [typedValue, c2, hs, encSegsW_eq], c5 false⟩
 
 
+/-! ## what `expected` – hence, by `decode_encode`, the decoder – says about an MP
+attribute of an UNSUPPORTED (AFI, SAFI) and about the reserved octet -/
+
+/-- **unsupported_reach_reported.** When the (first) MP_REACH_NLRI of a content is
+of an (AFI, SAFI) outside the 13 families – next-hop field `nh`, reserved octet
+`rsv`, then `body`, all arbitrary – a faithful decoder reports: `mp_announcements()`
+is an iterator of type `Unsupported(afi, safi)` that yields NOTHING, whatever
+`body` holds; `mp_next_hop()` is an `Err` (there is no rule to read the field by)
+and so is `find_next_hop(k')` for every `k'` but IPv4 unicast (which falls back
+to the conventional NEXT_HOP); `typed_announcements::<T>()` is `Ok(None)` for
+every MP family's `T`; `announcements()` / `announcements_vec()` hold the
+conventional NLRI only; the fourth `afi_safis` slot names the unsupported type;
+and the attribute itself comes out of `path_attributes()` / `to_owned()` as an
+UNIMPLEMENTED attribute with flags as sent, type 14 and the value octets as sent
+– the reserved octet included. With `decode_encode` these are statements about
+`decObserve cfg (encoding ++ trail)` for every well-formed content. -/
+theorem unsupported_reach_reported (cfg : Cfg) (c : TContent) (fl : UInt8) (k : Nat × Nat) (nh : Bytes)
+    (rsv : UInt8) (body : Bytes) (hf : c.find 14 = some (.reachU fl k nh rsv body)) :
+    (expected cfg c).mpAnn = .ok (some (.unsupported k.1 k.2, ([], true))) ∧
+    (expected cfg c).mpNextHop = .err ∧
+    (∀ k', k' ≠ (1, 1) → (expected cfg c).findNextHop k' = .err) ∧
+    (∀ g, (g ≠ .v4u ∨ c.ann = []) → (expected cfg c).typedAnn g = .ok none) ∧
+    (expected cfg c).announcements = .ok (expected cfg c).convAnn ∧
+    (expected cfg c).annVec = .ok (anyNlris .v4u (cfg.rx (1, 1)) c.ann) ∧
+    (expected cfg c).afiSafis = .ok (if c.wd ≠ [] then some (.known .v4u (cfg.rx (1, 1))) else none,
+      if c.ann ≠ [] then some (.known .v4u (cfg.rx (1, 1))) else none,
+      (c.unreachOf cfg).map (·.1), some (.unsupported k.1 k.2)) ∧
+    (AttrC.reachU fl k nh rsv body).wire cfg = .unimplemented fl.toNat 14 (mpReachValue k nh rsv body) ∧
+    (AttrC.reachU fl k nh rsv body).owned cfg = .unimplemented fl.toNat 14 (mpReachValue k nh rsv body) := by
+  refine ⟨?_, ?_, ?_, ?_, ?_, ?_, ?_, ?_, ?_⟩
+  · simp [expected, TContent.reachOf, hf, okItems]
+  · simp [expected, TContent.reachNh, hf]
+  · intro k' hk'
+    simp [expected, findNextHopSpec, TContent.reachNh, hf, hk']
+  · intro g hg
+    have : ¬ (g = .v4u ∧ anyNlris .v4u (cfg.rx (1, 1)) c.ann ≠ []) := by
+      rintro ⟨h1, h2⟩
+      rcases hg with hg | hg
+      · exact hg h1
+      · exact h2 (by simp [hg, anyNlris])
+    simp [expected, typedSpec, this, TContent.reachOf, hf]
+  · simp [expected, TContent.reachOf, hf, okItems]
+  · simp [expected, TContent.reachOf, hf]
+  · simp only [expected, TContent.reachOf, hf, Option.map_some]
+  · simp [AttrC.wire, AttrC.ownedT, AttrC.valueD, AttrC.value, AttrC.fl, AttrC.code]
+  · simp [AttrC.owned, AttrC.ownedT, AttrC.valueD, AttrC.value, AttrC.fl, AttrC.code]
+
+/-- **unsupported_unreach_reported.** The same for MP_UNREACH_NLRI of an unsupported
+(AFI, SAFI) holding the octets `body`: `mp_withdrawals()` is an iterator of type
+`Unsupported(afi, safi)` without items; `typed_withdrawals::<T>()` is `Ok(None)`;
+`withdrawals()` holds the conventional NLRI only; and `is_eor()` – judged on the
+OCTETS, not on the iterator (F22b) – names exactly this (AFI, SAFI) when `body`
+is empty and the message carries nothing else that holds NLRI (no conventional
+section, no MP_REACH_NLRI), and is `None` as soon as `body` has one octet. -/
+theorem unsupported_unreach_reported (cfg : Cfg) (c : TContent) (fl : UInt8) (k : Nat × Nat) (body : Bytes)
+    (hf : c.find 15 = some (.unreachU fl k body)) :
+    (expected cfg c).mpWd = .ok (some (.unsupported k.1 k.2, ([], true))) ∧
+    (∀ g, (g ≠ .v4u ∨ c.wd = []) → (expected cfg c).typedWd g = .ok none) ∧
+    (expected cfg c).withdrawals = .ok (expected cfg c).convWd ∧
+    (expected cfg c).afiSafis = .ok (if c.wd ≠ [] then some (.known .v4u (cfg.rx (1, 1))) else none,
+      if c.ann ≠ [] then some (.known .v4u (cfg.rx (1, 1))) else none,
+      some (.unsupported k.1 k.2), (c.reachOf cfg).map (·.1)) ∧
+    (body ≠ [] → (expected cfg c).isEor = .ok none) ∧
+    (body = [] → c.wd = [] → c.ann = [] → c.find 14 = none → (expected cfg c).isEor = .ok (some k)) ∧
+    (AttrC.unreachU fl k body).owned cfg = .unimplemented fl.toNat 15 (mpUnreachValue k body) := by
+  have hne : c.attrs ≠ [] := by
+    intro h; simp [TContent.find, h] at hf
+  refine ⟨?_, ?_, ?_, ?_, ?_, ?_, ?_⟩
+  · simp [expected, TContent.unreachOf, hf, okItems]
+  · intro g hg
+    have : ¬ (g = .v4u ∧ anyNlris .v4u (cfg.rx (1, 1)) c.wd ≠ []) := by
+      rintro ⟨h1, h2⟩
+      rcases hg with hg | hg
+      · exact hg h1
+      · exact h2 (by simp [hg, anyNlris])
+    simp [expected, typedSpec, this, TContent.unreachOf, hf]
+  · simp [expected, TContent.unreachOf, hf, okItems]
+  · simp only [expected, TContent.unreachOf, hf, Option.map_some]
+  · intro hb
+    simp [expected, hne, TContent.unreachOf, TContent.unreachEmpty, hf, hb]
+  · intro hb hw ha h14
+    simp [expected, hne, TContent.unreachOf, TContent.unreachEmpty, hf, hb, hw, ha, h14, NlriTy.afiSafi]
+  · simp [AttrC.owned, AttrC.ownedT, AttrC.valueD, AttrC.value, AttrC.fl, AttrC.code]
+
+/-- **reserved_octet_ignored.** The reserved octet of an MP_REACH_NLRI of one of
+the 13 families (RFC 4760 3: "SHOULD be ignored upon receipt") changes nothing
+any NLRI / next-hop accessor reports – the fields below do not mention `rsv` –;
+it is visible in the attribute's value octets only (`wire` / `owned` hold
+`mpReachValue (famCode f) nh rsv _`). -/
+theorem reserved_octet_ignored (cfg : Cfg) (c : TContent) (fl : UInt8) (f : Fam) (nh : Bytes) (rsv : UInt8)
+    (nlri : List (Nat × f.Val)) (hf : c.find 14 = some (.reach fl f nh rsv nlri)) :
+    (expected cfg c).mpAnn =
+      .ok (some (.known f (cfg.rx (famCode f)), okItems (anyNlris f (cfg.rx (famCode f)) nlri))) ∧
+    (expected cfg c).mpNextHop = (match nhSpec f nh with | some x => .ok (some x) | none => .err) ∧
+    (∀ x, nhSpec f nh = some x → (expected cfg c).findNextHop (famCode f) = .ok x) := by
+  refine ⟨?_, ?_, ?_⟩
+  · simp [expected, TContent.reachOf, hf]
+  · simp only [expected, TContent.reachNh, hf, nhOf]
+    cases nhSpec f nh <;> rfl
+  · intro x hx
+    by_cases h11 : famCode f = (1, 1) <;> simp [expected, findNextHopSpec, TContent.reachNh, hf, nhOf, hx, h11]
+
 /-! ## the parts, on the level of raw attribute values -/
 
 /-- **sections_decoded.** Whatever the three sections hold, as long as each is
@@ -292,8 +394,8 @@ def exCfg : Cfg := ⟨true, [((2, 1), .both)]⟩
 /-- a mixed message: a conventional withdrawal and announcement, ORIGIN, an
 AS_PATH in the extended-length encoding (flags 0x50), an AGGREGATOR, standard
 communities, an attribute of unrecognised type 99, MP_REACH_NLRI for IPv6
-unicast with a link-local next-hop pair and one ADD-PATH NLRI (path id 7,
-2001:db8::/32), MP_UNREACH_NLRI for IPv6 unicast with one ADD-PATH NLRI -/
+unicast with a link-local next-hop pair, a NON-ZERO reserved octet (0x55) and
+one ADD-PATH NLRI (path id 7, 2001:db8::/32), MP_UNREACH_NLRI for IPv6 unicast with one ADD-PATH NLRI -/
 def exContent : TContent where
   wd := [(0, ⟨false, 8, [10, 0, 0, 0]⟩)]
   attrs := [
@@ -302,7 +404,7 @@ def exContent : TContent where
     .typed 0xc0 (.aggregator 70000 0xc0000201),
     .typed 0xc0 (.communities ⟨[0xfde80001, 0xffffff01], 8, false⟩),
     .raw 0xe0 99 [1, 2, 3],
-    .reach 0x90 .v6u (List.replicate 32 1)
+    .reach 0x90 .v6u (List.replicate 32 1) 0x55
       [(7, ⟨true, 32, [0x20, 0x01, 0x0d, 0xb8, 0, 0, 0, 0, 0, 0, 0, 0, 0, 0, 0, 0]⟩)],
     .unreach 0x80 .v6u [(9, ⟨true, 0, [0, 0, 0, 0, 0, 0, 0, 0, 0, 0, 0, 0, 0, 0, 0, 0]⟩)]]
   ann := [(0, ⟨false, 24, [192, 0, 2, 0]⟩)]
@@ -352,6 +454,76 @@ example : (expected exCfg exContent).findNextHop (1, 1) = .err := by decide
 example : (expected exCfg exContent).allCommunities = .ok (some [[0xfd, 0xe8, 0, 1], [0xff, 0xff, 0xff, 1]]) := by
   decide
 example : (expected exCfg exContent).isEor = .ok none := by decide
+
+/-- MP attributes of an UNSUPPORTED (AFI, SAFI) (1 / 5) in a two-octet session that
+was configured with ADD-PATH for that very pair: ORIGIN, an MP_REACH_NLRI with a
+three-octet next-hop field, reserved octet 0x7f and two opaque octets, an
+MP_UNREACH_NLRI with one opaque octet; and the bare End-of-RIB shape of that pair -/
+def exCfgU : Cfg := ⟨false, [((1, 5), .both)]⟩
+def exContentU : TContent where
+  wd := []
+  attrs := [.typed 0x40 (.origin 2), .reachU 0x80 (1, 5) [1, 2, 3] 0x7f [0xde, 0xad], .unreachU 0x90 (1, 5) [0x18]]
+  ann := [(0, ⟨false, 24, [192, 0, 2, 0]⟩)]
+def exEorU : TContent := ⟨[], [.unreachU 0x80 (1, 5) []], []⟩
+
+private theorem wfU (c : TContent) (hwd : c.wd = []) (hann : ∀ x ∈ c.ann, (codec .v4u).wf x.2 = true)
+    (hat : ∀ a ∈ c.attrs, WfAttrC exCfgU a)
+    (hu : ∀ a ∈ c.attrs, ∀ b ∈ c.attrs, a.code = b.code → (a.code = 14 ∨ a.code = 15) → a = b) :
+    WfContent exCfgU c := by
+  have hrx : exCfgU.rx (1, 1) = false := by decide
+  refine ⟨?_, ?_, hat, hu⟩
+  · rw [hrx, hwd]; simp [NlrisWf]
+  · rw [hrx]; simpa [NlrisWf] using hann
+
+example : WfContent exCfgU exContentU := by
+  refine wfU _ rfl (by decide) ?_ ?_
+  · intro a ha
+    simp only [exContentU, List.mem_cons, List.not_mem_nil, or_false] at ha
+    rcases ha with rfl | rfl | rfl
+    · exact ⟨⟨by decide, by decide⟩, by decide⟩
+    · exact ⟨⟨by decide, by decide, by decide, by decide⟩, by decide⟩
+    · exact ⟨⟨by decide, by decide, by decide⟩, by decide⟩
+  · intro a ha b hb hc h
+    simp only [exContentU, List.mem_cons, List.not_mem_nil, or_false] at ha hb
+    rcases ha with rfl | rfl | rfl <;> rcases hb with rfl | rfl | rfl <;>
+      first | rfl | (exfalso; revert hc h; decide)
+
+example : WfContent exCfgU exEorU := by
+  refine wfU _ rfl (by decide) ?_ ?_
+  · intro a ha
+    simp only [exEorU, List.mem_cons, List.not_mem_nil, or_false] at ha
+    subst ha
+    exact ⟨⟨by decide, by decide, by decide⟩, by decide⟩
+  · intro a ha b hb _ _
+    simp only [exEorU, List.mem_cons, List.not_mem_nil, or_false] at ha hb
+    rw [ha, hb]
+
+/-- ... what `expected` says about them (and, by `decode_encode`, the decoder of
+their encodings): no NLRI item, no next hop, the conventional next hop is none
+either, not an End-of-RIB – and the bare MP_UNREACH_NLRI is the End-of-RIB of
+(1, 5), of no other family -/
+example : (expected exCfgU exContentU).mpAnn = .ok (some (.unsupported 1 5, ([], true))) := by rfl
+example : (expected exCfgU exContentU).mpWd = .ok (some (.unsupported 1 5, ([], true))) := by rfl
+example : (expected exCfgU exContentU).mpNextHop = .err := by decide
+example : (expected exCfgU exContentU).isEor = .ok none := by decide
+example : (expected exCfgU exContentU).owned =
+    [.ok (.typed (.origin 2)), .ok (.unimplemented 0x80 14 [0, 1, 5, 3, 1, 2, 3, 0x7f, 0xde, 0xad]),
+     .ok (.unimplemented 0x90 15 [0, 1, 5, 0x18])] := by decide
+example : (expected exCfgU exEorU).isEor = .ok (some (1, 5)) := by decide
+/-- ... and the decoder model run on the encoding (a closed term, kernel-evaluated):
+type of `mp_announcements()`, number of its items, "ended"; `mp_next_hop()` is an
+error; `is_eor()`; `length()` -/
+def exObsU : Option ((Option (NlriTy × Nat) × Bool) × (Outcome (Option (Nat × Nat)) × Nat)) :=
+  match encUpdateT exCfgU exContentU with
+  | .ok bs =>
+    match decObserve exCfgU bs with
+    | .ok o =>
+      match o.mpAnn, o.mpNextHop with
+      | .ok x, .err => some ((x.map fun p => (p.1, p.2.1.length), (x.map (·.2.2)).getD false), (o.isEor, o.length))
+      | _, _ => none
+    | _ => none
+  | _ => none
+example : exObsU = some ((some (.unsupported 1 5, 0), true), (.ok none, 52)) := by decide +kernel
 
 /-- the same AS path on a two-octet session must fit two octets: AS 70000 does not -/
 example : ¬ AttrC.kindOk ⟨false, []⟩ (.typed 0x40 (.asPath [.asn 70000])) := by
